@@ -75,7 +75,45 @@ pub fn transform(rng: &mut Rng, p: &Program, ctx: &mut Ctx) -> Program {
     for (k, old) in &keys {
         loop {
             let kind = rng.below(3);
-            let fresh = fresh_name_of_kind(rng, kind, true);
+            let mut fresh = fresh_name_of_kind(rng, kind, true);
+            // "distinct spellings denote distinct variables": a third of the new names are near misses of a
+            // name already handed out - a proper name extended or shortened by a word, the same word under
+            // another article or as a simple name, a simple name one letter longer
+            if !map.is_empty() && rng.chance(1, 3) {
+                let near: Vec<Name> = map.values().cloned().collect();
+                let base = rng.pick(&near).clone();
+                let cap = |w: &str| upper_first(&w.to_lowercase());
+                let derived = match (&base, rng.below(3)) {
+                    (Name::Proper(ws), 0) => {
+                        let mut v = ws.clone();
+                        v.push(cap(&crate::gen::fresh_word(rng, false)));
+                        Some(Name::Proper(v))
+                    }
+                    (Name::Proper(ws), 1) if ws.len() >= 3 => Some(Name::Proper(ws[..ws.len() - 1].to_vec())),
+                    (Name::Proper(ws), _) => {
+                        // same first words, another last word
+                        let mut v = ws.clone();
+                        let k = v.len() - 1;
+                        v[k] = cap(&crate::gen::fresh_word(rng, false));
+                        Some(Name::Proper(v))
+                    }
+                    (Name::Common(_, w), 0) => Some(Name::Common(rng.pstr(&crate::gen::PREFIXES).to_string(), w.clone())),
+                    (Name::Common(_, w), _) => Some(Name::Simple(w.to_lowercase())),
+                    (Name::Simple(w), 0) => Some(Name::Common(rng.pstr(&crate::gen::PREFIXES).to_string(), w.to_lowercase())),
+                    (Name::Simple(w), _) => Some(Name::Simple(format!("{}{}", w.to_lowercase(), (b'a' + rng.below(26) as u8) as char))),
+                };
+                if let Some(d) = derived {
+                    let ok = match &d {
+                        Name::Simple(w) => !crate::kw::is_keyword(w),
+                        Name::Common(_, w) => !crate::kw::is_keyword(w),
+                        Name::Proper(ws) => ws.iter().all(|w| !crate::kw::is_keyword(w)),
+                    };
+                    if ok {
+                        ctx.count("near_miss_names_handed_out");
+                        fresh = d;
+                    }
+                }
+            }
             let fk = fresh.key();
             if used.contains(&fk) || keys.iter().any(|(k2, _)| *k2 == fk) {
                 continue;
